@@ -161,6 +161,7 @@ def install(cfg):
     install_asym(cfg)
     install_numbers(cfg)
     install_jwe(cfg)
+    install_serialization(cfg)
 
 
 def parse_simple_class_pattern(pat):
@@ -895,3 +896,23 @@ def install_jwe(cfg):
         interp.ctx.axiom((z3.Length(tail) > 0) == t, "unconsumed_tail")
         return interp.mk("vbytes", tail)
     fa[("decompressor", "unconsumed_tail")] = unconsumed_tail
+
+
+def install_serialization(cfg):
+    """PEM/DER dump of asymmetric keys: opaque octets; which object (private/public) is serialised is what matters."""
+    fm = cfg.foreign_methods
+    PEMOut = z3.Function("KeyBytes", S_, I_, S_)
+    kinds = ["rsa", "ec", "ed25519", "ed448", "x25519", "x448"]
+    for kd in kinds:
+        def pub_bytes(interp, k, a, kw, kd=kd):
+            interp.ctx.events.append(("public_bytes", k.kind, k.f["ident"]))
+            return SVal(mk_bytes(PEMOut(z3.StringVal("public"), k.f["ident"])))
+
+        def priv_bytes(interp, k, a, kw, kd=kd):
+            enc_alg = kw.get("encryption_algorithm", a[2] if len(a) > 2 else None)
+            interp.ctx.events.append(("private_bytes", k.kind, k.f["ident"], getattr(enc_alg, "kind", None)))
+            return SVal(mk_bytes(PEMOut(z3.StringVal("private"), k.f["ident"])))
+        if (kd + "_pub", "public_bytes") not in fm:
+            fm[(kd + "_pub", "public_bytes")] = pub_bytes
+        if (kd + "_priv", "private_bytes") not in fm:
+            fm[(kd + "_priv", "private_bytes")] = priv_bytes
